@@ -9,7 +9,8 @@ use bitcoin::hashes::Hash;
 use bitcoin::Txid;
 use lightning::events::{ClosureReason, Event};
 use lightning::ln::chan_utils::CommitmentTransaction;
-use std::collections::{BTreeMap, VecDeque};
+use std::collections::{BTreeMap, BTreeSet, VecDeque};
+use lightning::ln::types::ChannelId;
 use vcore::{CaseResult, Failure};
 
 pub enum M {
@@ -78,6 +79,10 @@ pub struct CommitOracle {
 	/// node -> (sender, rendering, emission step of the sender's latest update at that time) of the message it handled last
 	last_handled: BTreeMap<usize, (usize, String, u64)>,
 	link_cut_at: Vec<(usize, usize, u64)>,
+	/// nodes that have put a `shutdown` for a channel on the wire, and those that put a *new* update_add_htlc on the
+	/// wire after that (BOLT 2 forbids it)
+	shutdown_emitted: BTreeSet<(usize, ChannelId)>,
+	add_after_own_shutdown: BTreeSet<(usize, ChannelId)>,
 	/// per directed link, for every message in flight: emission step of the sender's latest update when it was emitted
 	in_flight_ctx: BTreeMap<(usize, usize), std::collections::VecDeque<u64>>,
 }
@@ -146,6 +151,8 @@ impl CommitOracle {
 			last_upd_emit: BTreeMap::new(),
 			last_handled: BTreeMap::new(),
 			link_cut_at: vec![],
+			shutdown_emitted: BTreeSet::new(),
+			add_after_own_shutdown: BTreeSet::new(),
 			in_flight_ctx: BTreeMap::new(),
 		}
 	}
@@ -222,8 +229,16 @@ impl CommitOracle {
 					}
 				},
 				M::S(SEvent::Emit { from, to, wire }) => {
+					if let Wire::Shutdown(m) = &wire {
+						self.shutdown_emitted.insert((from, m.channel_id));
+					}
 					if let Some(k) = upd_key(&wire) {
 						if !self.upd_emit.contains_key(&(from, to, k.clone())) {
+							if let Wire::Add(m) = &wire {
+								if self.shutdown_emitted.contains(&(from, m.channel_id)) {
+									self.add_after_own_shutdown.insert((from, m.channel_id));
+								}
+							}
 							self.upd_emit.insert((from, to, k), at);
 							self.last_upd_emit.insert((from, to), at);
 						}
@@ -324,6 +339,15 @@ impl CommitOracle {
 						// commitment batch as the sender's own fulfil of an inbound HTLC (the sender's limit already
 						// counted the fulfilled value, the receiver does not until the removal is acknowledged)
 						// (with a zero reserve the same refusal reads "would overdraw remaining funds")
+						// listed finding, matched on its exact mechanism: the refused node released an update_add_htlc (held
+						// back behind a blocked / in-flight monitor update) only after it had already sent its `shutdown`
+						if action.contains("Got add HTLC message when channel was not in an operational state") {
+							if let Some(c) = sim.chans.iter().find(|c| (c.a == from && c.b == to) || (c.a == to && c.b == from)) {
+								if self.add_after_own_shutdown.contains(&(to, c.id)) {
+									return Err(f.with_key("protocol-error/add-released-after-own-shutdown"));
+								}
+							}
+						}
 						let which = if action.contains("Remote HTLC add would put them under remote reserve value") {
 							Some("protocol-error/remote-reserve/add-batched-with-own-uncommitted-fulfil")
 						} else if action.contains("Remote HTLC add would overdraw remaining funds") {
